@@ -55,7 +55,7 @@ def main():
         })
     man = {
         'version': 1,
-        'setup_cmd': "/venv/bin/python -c 'import hypothesis' 2>/dev/null || /venv/bin/pip install --no-index --find-links /opt/veriftools/wheels hypothesis; /venv/bin/python /verif/tools/build_shim.py || true",
+        'setup_cmd': "/venv/bin/python -c 'import hypothesis' 2>/dev/null || /venv/bin/pip install --no-index --find-links /opt/veriftools/wheels hypothesis; /venv/bin/python /verif/tools/build_shim.py || true; /venv/bin/python -c 'import sys; sys.path.insert(0, \"/verif/.deps\"); import atheris' 2>/dev/null || /venv/bin/pip install -q --no-index --find-links /opt/veriftools/wheels --target /verif/.deps atheris || true",
         'hooks': {
             'guard': 'KLEPTO_VERIF',
             'enable': 'no source hooks: all observation is from outside (public wrapper attributes, libc interposition shim, worker processes); the guard variable is not read by /repo',
